@@ -44,6 +44,90 @@ def gridOrigin (mn c shift : Rat) : Rat := mn - c * (3 / 2) + c * shift
 /-- `n_cells = ((max - og) / len_cell).ceil().to_usize().unwrap() + 1` -/
 def gridCells (mn mx c shift : Rat) : Nat := ((mx - gridOrigin mn c shift) / c).ceil.toNat + 1
 
+/-! ### the origin-shift loop of `compute_overlapping_grid` and `detect_overlaps`
+
+  `og = min - 1.5·cell`; `while on_corner | reflect { og += cell / 2^(i+1); i += 1; re-check }` with `i` from 1: after `k`
+  iterations the origin has moved by `cell·(1/4 + … + 1/2^(k+1)) = cell·(1/2 - 1/2^(k+1))` on both axes.
+  `detect_overlaps(.., overlap_only_corners)` is called with `!keep_all_poi` before the loop AND inside it:
+  `grisubal` (`keep_all_poi = false`) looks for vertices on grid corners only, `capture_geometry` (`true`) for vertices on
+  any grid line; both also look for "reflections" (a boundary vertex on a grid line whose two neighbours share a cell).
+  Over `Rat` (exact `%`, `/`, `floor`); the loop on a fuel of `2·|V| + 1` checks (`Props/C16Grid.lean`: never exhausted). -/
+
+/-- cumulated shift, in cells, after `k` iterations -/
+def shiftAfter (k : Nat) : Rat := 1 / 2 - 1 / (2 : Rat) ^ (k + 1)
+
+/-- `((v - origin) % cell).is_zero()` -/
+def onLine (o c v : Rat) : Bool := ((v - o) / c).isInt
+
+/-- `GridCellId(((v.x - ox) / cx).floor(), ((v.y - oy) / cy).floor())` -/
+def cellAt (ox oy cx cy : Rat) (v : Rat × Rat) : Int × Int := (((v.1 - ox) / cx).floor, ((v.2 - oy) / cy).floor)
+
+/-- the lazily evaluated chain `filter_map(on a line) . filter(belongs to the boundary) . map(c_in == c_out) . any()`;
+    `none` = one of the two `.expect("E: found a vertex with no incident segment - is the geometry open?")` fires -/
+def badReflection (verts : List (Rat × Rat)) (segs : List (Nat × Nat)) (ox oy cx cy : Rat) :
+    List ((Rat × Rat) × Nat) → Option Bool
+  | [] => some false
+  | (v, id) :: rest =>
+      if (onLine ox cx v.1 || onLine oy cy v.2) && segs.any (fun s => id = s.1 || id = s.2) then
+        match segs.find? (fun s => id = s.2), segs.find? (fun s => id = s.1) with
+        | some sin, some sout =>
+            if cellAt ox oy cx cy (verts.getD sin.1 (0, 0)) = cellAt ox oy cx cy (verts.getD sout.2 (0, 0)) then some true
+            else badReflection verts segs ox oy cx cy rest
+        | _, _ => none
+      else badReflection verts segs ox oy cx cy rest
+
+/-- `detect_overlaps`: `(on_grid, bad_reflection)`; `on_grid` is computed first (it cannot panic) -/
+def detectOverlaps (verts : List (Rat × Rat)) (segs : List (Nat × Nat)) (cx cy ox oy : Rat) (onlyCorners : Bool) :
+    Option (Bool × Bool) :=
+  let onGrid := verts.any fun v =>
+    if onlyCorners then onLine ox cx v.1 && onLine oy cy v.2 else onLine ox cx v.1 || onLine oy cy v.2
+  (badReflection verts segs ox oy cx cy verts.zipIdx).map fun r => (onGrid, r)
+
+/-- the `while` loop on the check `bad k` (`none`: panic, `some true`: shift again) from iteration `k` on;
+    `none` = fuel exhausted, `some none` = panic, `some (some k)` = the loop ends after `k` shifts -/
+def shiftLoop (bad : Nat → Option Bool) : Nat → Nat → Option (Option Nat)
+  | 0, _ => none
+  | f + 1, k =>
+      match bad k with
+      | none => some none
+      | some true => shiftLoop bad f (k + 1)
+      | some false => some (some k)
+
+/-- the check of the loop after `k` shifts -/
+def gridBad (verts : List (Rat × Rat)) (segs : List (Nat × Nat)) (cx cy mnx mny : Rat) (keepAllPoi : Bool) (k : Nat) :
+    Option Bool :=
+  (detectOverlaps verts segs cx cy (gridOrigin mnx cx (shiftAfter k)) (gridOrigin mny cy (shiftAfter k)) (!keepAllPoi)).map
+    fun r => r.1 || r.2
+
+inductive GridOut where
+  | ok (ox oy : Rat) (nx ny : Nat) (shifts : Nat)
+  | invalidShape (msg : String)
+  | panic
+  | diverges
+  deriving Repr
+
+def listMinR (l : List Rat) (d : Rat) : Rat := l.foldl min d
+def listMaxR (l : List Rat) (d : Rat) : Rat := l.foldl max d
+
+/-- `compute_overlapping_grid(geometry, [cx, cy], keep_all_poi)` -/
+def overlappingGrid (verts : List (Rat × Rat)) (segs : List (Nat × Nat)) (cx cy : Rat) (keepAllPoi : Bool) : GridOut :=
+  match verts with
+  | [] => .invalidShape "no vertex in shape"
+  | v0 :: _ =>
+    let mnx := listMinR (verts.map (·.1)) v0.1
+    let mxx := listMaxR (verts.map (·.1)) v0.1
+    let mny := listMinR (verts.map (·.2)) v0.2
+    let mxy := listMaxR (verts.map (·.2)) v0.2
+    if mxx ≤ mnx then .invalidShape "bounding values along X axis are equal"
+    else if mxy ≤ mny then .invalidShape "bounding values along Y axis are equal"
+    else
+      match shiftLoop (gridBad verts segs cx cy mnx mny keepAllPoi) (2 * verts.length + 1) 0 with
+      | none => .diverges
+      | some none => .panic
+      | some (some k) =>
+          .ok (gridOrigin mnx cx (shiftAfter k)) (gridOrigin mny cy (shiftAfter k))
+            (gridCells mnx mxx cx (shiftAfter k)) (gridCells mny mxy cy (shiftAfter k)) k
+
 /-! ## step 1 for one segment: `generate_intersection_data` (`routines/compute_intersecs.rs`) -/
 
 /-- the overlapping grid as the kernel sees it: origin, cell lengths, number of cells along x (the
